@@ -44,6 +44,9 @@
 
 #define VASSERT(c, msg) __CPROVER_assert((c), msg)
 #define VASSUME(c) __CPROVER_assume(c)
+/* bind a memory cell of a symbolic-size object to an input field: an assumption on the (nondeterministic)
+ * initial content under CBMC - far cheaper than an array update - and a plain store natively */
+#define VBIND(lhs, val) __CPROVER_assume((lhs) == (val))
 #ifdef VERIF_COVER
 #define VCOVER(c, msg) __CPROVER_cover(c)
 #else
@@ -81,6 +84,7 @@ extern int verif_failed;
 		}                                                              \
 	} while (0)
 #define VCOVER(c, msg) ((void)0)
+#define VBIND(lhs, val) ((lhs) = (val))
 
 struct verif_field {
 	const char *name;
